@@ -842,7 +842,17 @@ class ExecBase:
             i = self.need_int(iv, st, node)
             n = z3.Length(c.e)
             self.may_raise(st, z3.Or(i >= n, i < -n), Exc("IndexError"), node)
-            return VStr(z3.If(i >= 0, z3.SubString(c.e, i, 1), z3.SubString(c.e, n + i, 1)))
+            ch = z3.If(i >= 0, z3.SubString(c.e, i, 1), z3.SubString(c.e, n + i, 1))
+            from . import stdlib_model as M
+            # lemma (valid in the theory of strings, stated to spare the solver the search): a character of a string over a
+            # character class belongs to that class
+            valid = z3.And(i < n, i >= -n)
+            for cls_ in (M.LOWER_, M.ALNUM_):
+                self.assume(st, z3.Implies(z3.And(valid, z3.InRe(c.e, z3.Star(cls_))), z3.InRe(ch, cls_)))
+            self.assume(st, z3.Implies(valid, z3.Length(ch) == 1))
+            if z3.is_int_value(z3.simplify(i)) and z3.simplify(i).as_long() == 0:
+                self.assume(st, z3.Implies(valid, z3.PrefixOf(ch, c.e)))
+            return VStr(ch)
         if c.tag == "any":
             a = c.e
             ia = iv.any()
